@@ -9,6 +9,7 @@ from .. import attrs as A
 from .. import build as B
 from .. import gen as G
 from .. import harness as H
+from .. import model as M
 from .. import shapes as S
 from .. import unions as U
 from ..common import NCPU, Check, digest, log, rng_for
@@ -124,6 +125,18 @@ def m_dup_rank(rng, td):
     v = rng.choice(vs)
     fs = [f for f in v.fields if not f.sem.get(key, {}).get("ignore")]
     a, b = rng.sample(fs, 2)
+    if rng.random() < 0.35:
+        # an explicit rank equal to the DEFAULT rank (isize::MIN + position) of another compared field, either order
+        a, b = sorted((a, b), key=lambda f: f.slot)
+        ranked, plain = (a, b) if rng.random() < 0.6 else (b, a)
+        carriers = [key] + (["PartialOrd"] if key == "Ord" and "PartialOrd" in td.traits else [])
+        s = dict(ranked.sem.get(key, {}))
+        s["rank"] = G.ISIZE_MIN + plain.slot
+        s.setdefault("carrier", rng.choice(carriers))
+        ranked.sem[key] = s
+        if plain.sem.get(key, {}).get("rank") is not None:
+            plain.sem[key] = {k: v for k, v in plain.sem[key].items() if k != "rank"}
+        return "rank-twice/default-rank"
     r = rng.choice([0, 5, -3, 100])
     carriers = [key] + (["PartialOrd"] if key == "Ord" and "PartialOrd" in td.traits else [])
     for f in (a, b):
@@ -286,6 +299,61 @@ def m_alias_not_educed(rng, td, alias):
     return "trait-not-educed/partner-name/%s" % partner
 
 
+def m_alias_dup(rng, td):
+    """one parameter given twice under its two names, with different values"""
+    DFLT = "::core::default::Default::default()"
+    opts = []
+    if "Debug" in td.traits:
+        for v in td.variants:
+            vs = v.sem.get("Debug", {})
+            named = vs.get("named_field", td.tsem.get("Debug", {}).get("named_field", v.style == "named")) if td.kind == "enum" \
+                else td.tsem.get("Debug", {}).get("named_field", v.style == "named")
+            if named:
+                opts += [("debug-field", v, f) for f in v.fields]
+    if "Default" in td.traits and td.tsem.get("Default", {}).get("expr") is None:
+        di = M.default_target(td)
+        dv = td.variants[di] if di is not None and td.variants else None
+        if dv is not None:
+            opts += [("default-field", dv, f) for f in dv.fields if "Default" in f.kind.caps]
+    if "Into" in td.traits:
+        opts.append(("into-bound", None, None))
+    if not opts:
+        return None
+    what, v, f = rng.choice(opts)
+    if what == "debug-field":
+        f.sem.pop("Debug", None)
+        a = rng.choice(["name = aa", "name(aa)", "name = \"aa\""])
+        b = rng.choice(["rename = bb", "rename(bb)", "rename = \"bb\""])
+        two = [a, b]
+        rng.shuffle(two)
+        f.sem.setdefault("_raw", []).append("Debug(%s)" % ", ".join(two))
+        return "parameter-twice/field/name+rename"
+    if what == "default-field":
+        f.sem.pop("Default", None)
+        a = rng.choice(["expression = %s" % DFLT, "expression(%s)" % DFLT])
+        b = rng.choice(["expr = %s" % DFLT, "expr(%s)" % DFLT])
+        two = [a, b]
+        rng.shuffle(two)
+        f.sem.setdefault("_raw", []).append("Default(%s)" % ", ".join(two))
+        return "parameter-twice/field/expression+expr"
+    tgt = td.tsem["Into"]["targets"][0]["ty"]
+    first = rng.choice(["bound = true", "bound(true)", "bound = false", "bound(*)"])
+    second = rng.choice(["bound = false", "bound(u8: ::core::marker::Copy)", "bound = true", "bound = \"u8: Copy\""])
+
+    def hook(lv, ob, lst):
+        if lv == "type":
+            out, done = [], False
+            for tt, pp in lst:
+                if tt == "Into" and not done:
+                    out.append(("RAW", "Into(%s, %s, %s)" % (tgt, first, second)))
+                    done = True
+                else:
+                    out.append((tt, pp))
+            return out
+        return lst
+    return "parameter-twice/type/into-bound", hook
+
+
 def m_unknown_trait(rng, td):
     attr = rng.choice(["Foo", "Foo(ignore)", "debug", "Display", "Serialize = false", "Partialeq(ignore)",
                        "std::fmt::Debug", "Debug::Foo(ignore)"])
@@ -336,6 +404,11 @@ WRONG_PARAMS = {
     ("type", "PartialOrd"): ["PartialOrd(rank = 1)", "PartialOrd = false"],
     ("type", "Ord"): ["Ord(rank = 1)", "Ord(ignore)"],
     # with Clone educed the Copy impl is written by the Clone handler with Clone's where-clause: Copy takes no parameter
+    ("type", "Hash"): ["Hash(ignore)", "Hash = false", "Hash(unsafe)", "Hash(unsafe, bound(*))", "Hash(unsafe,)"],
+    ("type", "Debug"): ["Debug(ignore)", "Debug(method(%sfmt_alt))" % RT, "Debug(foo = 1)", "Debug(unsafe)", "Debug(unsafe, name = Zz)"],
+    ("type", "PartialEq"): ["PartialEq(ignore)", "PartialEq = false", "PartialEq(rank = 1)", "PartialEq(unsafe)", "PartialEq(unsafe, bound(*))"],
+    ("variant", "Hash"): ["Hash", "Hash(ignore)", "Hash(unsafe)"],
+    ("field", "Hash"): ["Hash(rank = 1)", "Hash(bound(*))", "Hash", "Hash(name = x)", "Hash(unsafe)"],
     ("type", "Copy"): ["Copy(bound(*))", "Copy(bound = false)", "Copy(bound(u8: ::core::marker::Copy))", "Copy(bound = \"u8: Copy\")"],
 }
 
@@ -446,7 +519,7 @@ def m_debug_nameless(rng, td):
 
 MUTATORS = [m_dup_trait, m_dup_trait_field, m_dup_param, m_dup_param, m_dup_rank, m_dup_into_type, m_dup_into_field,
             m_default_variant, m_deref_designation, m_into_designation, m_into_ambiguous, m_trait_not_educed, m_unknown_trait,
-            m_wrong_param, m_wrong_param, m_name_on_positional, m_unit_variant, m_debug_nameless]
+            m_wrong_param, m_wrong_param, m_name_on_positional, m_unit_variant, m_debug_nameless, m_alias_dup, m_alias_dup]
 
 
 # union classes -----------------------------------------------------------------------------------
@@ -481,6 +554,15 @@ def union_cases(rng):
             return None
         rng.choice(others).sem["Default"] = {"flag": True}
         return "default-field-twice", td, None
+    if r < 0.78 and "Default" in td.traits:
+        # the whole value comes from a type-level expression: a field designation next to it contradicts it
+        fs = td.variants[0].fields
+        f0 = fs[0]
+        for f in fs:
+            f.sem.pop("Default", None)
+        td.tsem["Default"] = dict(td.tsem.get("Default", {}), expr="%s { %s: ::core::default::Default::default() }" % (td.name, f0.name))
+        rng.choice(fs).sem["Default"] = rng.choice([{"flag": True}, {"expr": "::core::default::Default::default()"}])
+        return "union-default-expression-and-field", td, None
     if r < 0.85 and ts:
         # unsafe not first
         t = rng.choice(ts)
